@@ -14,9 +14,11 @@ LEVEL_TEXT = ("Bounded contract on the real is_type_compatible / Pipeline type v
               "annotations, Annotated, Array[T], bounded/constrained TypeVars): all ordered pairs of annotations from a "
               "recursive grammar at depth <=2, algebraic laws (reflexivity, Any, unions), and 2-3 node pipelines wiring "
               "such annotations directly, through element-wise maps and through reductions. The code is `typing` "
-              "introspection (get_origin/get_args/isinstance on annotation objects), which has no semantics in the "
-              "proof rung: no deductive part ('exploration').")
-LEVEL_TEXT += (" Proved part (pyvc), relative to the verdict on component types (is_type_compatible as an assumed pure relation): the combination rules of the statement - _all_types_compatible (union into union: every source member is accepted by some target member) and _compare_generic_type_args (unparametrised on either side: compatible; otherwise covariant, argument by argument). The sentence 'no deductive part' above refers to is_type_compatible itself.")
+              "introspection (get_origin/get_args/isinstance on annotation objects): that introspection has no semantics "
+              "in the proof rung (it enters as assumed pure functions and views), so agreement of the whole relation with "
+              "subtyping is decided by this bounded exploration ('exploration'); what is discharged deductively are the "
+              "rules that combine verdicts, listed next.")
+LEVEL_TEXT += (" Proved part (pyvc), relative to the verdict on component types (is_type_compatible as an assumed pure relation): the combination rules of the statement - _all_types_compatible (union into union: every source member is accepted by some target member) and _compare_generic_type_args (unparametrised on either side: compatible; otherwise covariant, argument by argument).")
 LEVEL_TEXT += (" Also proved: _handle_union_types (the statement's union rule: both unions -> every source member accepted by some target member; a union source needs all members accepted; a union target needs one; otherwise no verdict), relative to is_type_compatible on the members as an assumed pure relation and typing.get_origin / get_args as assumed pure functions; the union-into-union case goes through the proved contract of _all_types_compatible.")
 LEVEL_TEXT += (" And _compare_single_annotated_type (Annotated on one side only: its primary type decides, in the same direction) and _check_identical_or_any (the base case: an unresolvable hint, identical types, Any required, or a missing annotation on either side; type objects are opaque, == on them is equality of the views).")
 LEVEL_TEXT += (" And _handle_generic_types (Annotated on both sides -> their own comparison; on one side -> the primary type, direction kept; two generics -> origins must agree, then covariant argument by argument through the proved _compare_generic_type_args; otherwise no verdict).")
